@@ -23,6 +23,11 @@ CONSTANTS
   RepeatedVals = {}
   Modules = FALSE
   BindOps = FALSE
+  MDenoms = {"stake"}
+  InitBtc = 0
+  RateN = 0
+  RateD = 1
+  RateVals <- RateValsNone
   SetupSpec <- SetupA
   ProvSeqs <- ProvSeqsA
   UpdateSpecs <- UpdateSpecsNone
